@@ -228,10 +228,12 @@ def inline_unknown(fns, built, known):
                 if b["t"][0] == "call" and callee_key(b["t"]) in helpers and f["key"] not in helpers:
                     still.add(callee_key(b["t"]))
                 for s in b["s"]:
-                    if s[0] == "=" and "fn" in json.dumps(s[2]):
-                        for h in helpers:
-                            if h in json.dumps(s[2]):
-                                still.add(h)
+                    if s[0] == "=":
+                        js = json.dumps(s[2])
+                        if "fn" in js:
+                            for h in helpers:
+                                if json.dumps(h) in js:         # the function itself (as a value), not one of its closures
+                                    still.add(h)
     gone = set(h for h in helpers if h not in still and by_key[h].get("vis") != "Public")
     report["helpers"] = sorted(helpers)
     report["removed"] = sorted(gone)
@@ -243,5 +245,8 @@ def inline_unknown(fns, built, known):
     fns = [f for f in fns if f["key"] not in gone]
     for f in fns:
         if f.get("owner") in gone and reown.get(f["owner"]):
-            f["also_owned_by"] = reown[f["owner"]]
+            owners = reown[f["owner"]]
+            f["spliced_owner"] = f["owner"]
+            f["owner"] = owners[0]              # the closure now lives in the function its helper was spliced into
+            f["also_owned_by"] = owners[1:]
     return fns, built, report
